@@ -55,10 +55,11 @@ static inline uint64_t vn_u64_raw(void)
 #include <stdio.h>
 #include <stdlib.h>
 uint64_t verif_replay_next(void);
-#define V_ASSUME(c) do { if (!(c)) { fprintf(stderr, "REPLAY: assumption not met: %s (%s:%d)\n", #c, __FILE__, __LINE__); exit(77); } } while (0)
-#define V_ASSERT(c, id) do { if (!(c)) { fprintf(stderr, "REPLAY: VIOLATED %s: %s (%s:%d)\n", id, #c, __FILE__, __LINE__); exit(1); } } while (0)
+void verif_msg(const char *fmt, ...);	/* stderr; immune to harness-local "#define fprintf" */
+#define V_ASSUME(c) do { if (!(c)) { verif_msg("REPLAY: assumption not met: %s (%s:%d)\n", #c, __FILE__, __LINE__); exit(77); } } while (0)
+#define V_ASSERT(c, id) do { if (!(c)) { verif_msg("REPLAY: VIOLATED %s: %s (%s:%d)\n", id, #c, __FILE__, __LINE__); exit(1); } } while (0)
 #define V_WITNESS() ((void)0)
-#define V_NOTE(...) fprintf(stderr, __VA_ARGS__)
+#define V_NOTE(...) verif_msg(__VA_ARGS__)
 static inline uint64_t vn_u64_raw(void) { return verif_replay_next(); }
 
 #endif
@@ -121,10 +122,10 @@ static inline bool v_has_prefix(const uint8_t *k, size_t lk, const uint8_t *p, s
 		for (unsigned i = 0; i < sizeof(t) / sizeof(t[0]); i++) \
 			if (argc > 1 && strcmp(argv[1], t[i].n) == 0) { \
 				t[i].f(); \
-				fprintf(stderr, "REPLAY: completed without violation\n"); \
+				verif_msg("REPLAY: completed without violation\n"); \
 				return 0; \
 			} \
-		fprintf(stderr, "REPLAY: unknown entry\n"); \
+		verif_msg("REPLAY: unknown entry\n"); \
 		return 2; \
 	}
 #else
